@@ -110,6 +110,19 @@ Destroy(a) == /\ nmut < MaxMuts /\ nmut' = nmut + 1 /\ phase = "run" /\ frames #
               /\ H([op |-> "destroy", a |-> a, v |-> 0])
               /\ UNCHANGED <<stor, bal, logs, tstore, access, frames, tx, nframes, phase, receipt, lastFail>>
 
+(* a call instruction whose callee is a precompile: no interpreter frame, but a frame all the same - the  *)
+(* value transfer and the creation of the precompile's account happen inside it and are undone when the   *)
+(* precompile fails.  a encodes kind (a % 4: call, callcode, delegate, static) and outcome class (a \div 4: *)
+(* 0 succeeds, 1..3 the failure classes the driver knows); value-bearing calls are generated for the       *)
+(* failing classes (a successful one moves value out of the modelled accounts: left to the random trees).  *)
+PreCall(a, v) ==
+  /\ nmut < MaxMuts /\ nmut' = nmut + 1 /\ phase = "run" /\ frames # <<>>
+  /\ (v = 1 => (a % 4 \in {0, 1} /\ a \div 4 # 0))
+  /\ ~(InStatic /\ v = 1 /\ a % 4 = 0)               \* that is a write attempt in static context
+  /\ lastFail' = IF a \div 4 # 0 THEN <<Obs, Obs>> ELSE lastFail
+  /\ H([op |-> "precall", a |-> a, v |-> v])
+  /\ UNCHANGED <<stor, bal, live, logs, tstore, access, journal, frames, tx, nframes, phase, receipt>>
+
 (* undo the journal entries idx+1 .. Len(journal), newest first *)
 RECURSIVE Undo(_, _, _)
 Undo(st, j, idx) ==
@@ -160,6 +173,7 @@ Next == \/ TxBegin
         \/ \E k \in Kinds, a \in Accts : Enter(k, a)
         \/ \E a \in Accts, v \in {0, 1} : SStore(a, v) \/ TStore(a, v)
         \/ \E a \in Accts : Log(a) \/ Destroy(a) \/ (\E b \in Accts : Transfer(a, b))
+        \/ \E a \in 0..15, v \in {0, 1} : (v = 0 => a < 8) /\ PreCall(a, v)
         \/ ExitOk \/ \E m \in FailModes : ExitFail(m)
         \/ \E m \in {"sstore", "tstore", "log", "transfer", "destroy"} : StaticAttempt(m)
 Spec == Init /\ [][Next]_vars
